@@ -30,6 +30,8 @@ def PercentageString(value):
                 percent = float(work[:-1])
                 if percent < 0:
                     raise Invalid("Cannot have a negative percentage")
+                if percent != percent:
+                    raise Invalid("Not a valid percentage string")
                 return "{percent}%".format(percent=percent)
             except Invalid:
                 raise
